@@ -159,6 +159,15 @@ def build_unit(unit, log):
                     sha256=hashlib.sha256(it['text'].encode()).hexdigest())
         text = _apply_rewrites(text, unit.get('rw', []), log, uid, 'item')
         text = re.sub(r'^(?!pub\b)', 'pub ', text, count=1)
+        text = re.sub(r'^pub\([a-z]+\)', 'pub', text)
+        if kind == 'struct':
+            # R0: field visibility widened to pub (specifications mention the fields)
+            mm = re.match(r'(pub struct [^({]*)\((.*)\);\s*$', text, re.S)
+            if mm:
+                fields = [f.strip() for f in mm.group(2).split(',') if f.strip()]
+                text = mm.group(1) + '(' + ', '.join(f if f.startswith('pub') else 'pub ' + f for f in fields) + ');'
+            else:
+                text = re.sub(r'(?m)^(\s*)(?!pub\b)(\w+\s*:)', r'\1pub \2', text)
         pre = unit.get('attrs', '')
         return (pre + '\n' if pre else '') + text, meta
 
@@ -186,13 +195,15 @@ def build_unit(unit, log):
     body = rsparse.strip_comments_attrs(f['body'])
     # R6: hoist fn-local items
     hoisted = []
-    for (rule, pat, repl) in unit.get('hoist', []):
+    for h in unit.get('hoist', []):
+        rule, pat, repl = h[0], h[1], h[2]
+        inline = h[3] if len(h) > 3 else ''
         m = re.search(pat, body, re.S)
         if not m:
             raise ExtractError('%s: hoist anchor /%s/ not found' % (uid, pat))
         hoisted.append(m.expand(repl))
         log.append(dict(unit=uid, rule=rule, where='body', pattern=pat, replacement=repl, matches=[m.group(0)]))
-        body = body[:m.start()] + body[m.end():]
+        body = body[:m.start()] + (m.expand(inline) if inline else '') + body[m.end():]
     body = _apply_rewrites(body, unit.get('rw', []), log, uid, 'body')
     body = _splice_loops(body, unit.get('loops', {}), uid)
     body = _splice_hints(body, unit.get('hints', []), uid)
@@ -204,7 +215,12 @@ def build_unit(unit, log):
         body = '{\n    let mut this = self;' + re.sub(r'\bself\b', 'this', body[1:])
         log.append(dict(unit=uid, rule='R1', where='signature+body', pattern='mut self', replacement='let mut this = self', matches=['mut self']))
     attrs = unit.get('attrs', '')
-    text = '\n'.join(x for x in ['\n'.join(hoisted), attrs, sig, contract, body] if x)
+    hoist_out = ''
+    if unit.get('wrap') and hoisted:
+        hoist_out = '\n'.join(hoisted)
+        hoisted = []
+    meta['hoist_out'] = hoist_out
+    text = '\n'.join(x for x in [unit.get('pre_text', ''), '\n'.join(hoisted), attrs, sig, contract, body] if x)
     meta['mode'] = 'body'
     return text, meta
 
@@ -227,6 +243,11 @@ def build_group(name, outdir):
     for u in g['units']:
         text, meta = build_unit(u, log)
         wrap = u.get('wrap')
+        if meta.get('hoist_out'):
+            if cur_wrap is not None:
+                parts.append('}')
+                cur_wrap = None
+            parts.append(meta['hoist_out'])
         if wrap != cur_wrap:
             if cur_wrap is not None:
                 parts.append('}')
